@@ -202,6 +202,9 @@ PROPS["C13"] = P(
         J("c13_ref_lemma_2", unwind=6, uw=tok_uw(2), desc="reference only, 2 x T9: permissive parse == strict parse of the consumed prefix; strict success => permissive success with nothing left"),
         J("c13_ref_lemma_3", unwind=6, uw=tok_uw(3), desc="reference only, 3 x T9"),
         J("c13_ref_lemma_4", unwind=6, uw=tok_uw(4), desc="reference only, 4 x T9"),
+        J("c13_glue_cut_len1", tier="t", unwind=4, uw=mk({r"Split|position|c13::": 3}, tok_uw(1)), stubs=PARSER_STUBS + ["unic_locale_impl::extensions::ExtensionsMap::try_from_iter"], desc="Locale::from_bytes vs LanguageIdentifier::from_bytes on every 1-byte string, the real parse_locale glue with the extension parser cut for non-exhausted iterators", weight=2, mem_gb=16),
+        J("c13_glue_cut_len2", tier="t", unwind=5, uw=mk({r"Split|position|c13::": 4}, tok_uw(2)), stubs=PARSER_STUBS + ["unic_locale_impl::extensions::ExtensionsMap::try_from_iter"], desc="same on every 2-byte string (every two-letter language)", weight=3, mem_gb=24),
+        J("c13_glue_cut_len3", tier="t", unwind=6, uw=mk({r"Split|position|c13::": 5}, tok_uw(3)), stubs=PARSER_STUBS + ["unic_locale_impl::extensions::ExtensionsMap::try_from_iter"], desc="same on every 3-byte string", weight=4, mem_gb=30),
         J("c13_locale_glue_lang2", tier="t", unwind=5, uw=glue_uw(2, 1), stubs=TLIST_STUBS, desc="Locale::from_bytes vs LanguageIdentifier::from_bytes on every 2-byte string without separator (symbolic language through the real parse_locale)", weight=3, mem_gb=30, cbmc=NOPTR),
         J("c13_locale_glue_lang3", tier="x", unwind=6, uw=glue_uw(3, 1), stubs=TLIST_STUBS, desc="same on every 3-byte string without separator", weight=3, mem_gb=16, cbmc=NOPTR),
         J("c13_locale_glue_lang2_us", tier="x", unwind=8, uw=glue_uw(5, 2), stubs=TLIST_STUBS, desc="same on '??-US', ?? any two non-separator bytes", weight=4, mem_gb=24, cbmc=NOPTR),
@@ -254,7 +257,7 @@ PROPS["C06"] = P(
 PROPS["C07"] = P(
     jobs=[
         J("c07_laws_und", unwind=6, uw=LK_UW, desc="kept subtags, all three filled, second maximize is None; arbitrary (und, script?, region?)"),
-        J("c07_laws_zh", unwind=6, uw=LK_UW, desc="the same laws plus 'second maximize is None' for the concrete language zh, every valid (script?, region?)", weight=2),
+        J("c07_laws_zh", unwind=6, uw=LK_UW, desc="the same laws for the concrete language zh, every valid (script?, region?)", weight=2),
         J("c07_laws_unknown_qaa", unwind=6, uw=LK_UW, desc="same for qaa, a language without CLDR entry (must never be replaced by a table language)", weight=2),
         J("c07_laws_lang", tier="t", unwind=6, uw=LK_UW, desc="same for arbitrary non-empty language (touches the 7143-row table)", weight=5, mem_gb=40, cbmc=["--no-pointer-check"], trace=False, timeout_t=5400),
         J("c07_full_is_fixpoint", tier="t", unwind=6, uw=LK_UW, desc="language+script+region all present => maximize is None / false / unchanged (closes idempotence); the language's emptiness is a niche value of its first byte, so CBMC also explores the table branch", weight=5, mem_gb=40, cbmc=["--no-pointer-check"], trace=False, timeout_t=5400),
@@ -301,7 +304,7 @@ PROPS["C03"] = P(
         uf("c03_u_2_2", [2, 2], tier="t"), uf("c03_u_2_3_2_3", [2, 3, 2, 3], tier="t"),
         tf("c03_t_2", [2], tier="t"), tf("c03_t_2_3", [2, 3], tier="t"), tf("c03_t_3", [3], mem_gb=16), tf("c03_t_3_3", [3, 3], tier="t", mem_gb=24, timeout_t=3000), tf("c03_t_3_4", [3, 4], tier="x", mem_gb=24), tf("c03_t_8_3", [8, 3], tier="x", mem_gb=24), tf("c03_t_3_1", [3, 1], tier="t", mem_gb=24, timeout_t=3000), tf("c03_t_2_3_1", [2, 3, 1], tier="t", mem_gb=44, timeout_t=3000, trace=False), tf("c03_t_2_2_3", [2, 2, 3], tier="t"),
         tf("c03_t_2_5_2", [2, 5, 2], tier="t", mem_gb=44, timeout_t=3000, trace=False), tf("c03_t_2_3_2_3", [2, 3, 2, 3], tier="t"),
-        tk("c03_tk_h0_hybrid_sing", 3), tk("c03_tk_en_de", 2), tk("c03_tk_en_us_de", 3), tk("c03_tk_en_us_3", 3), tk("c03_tk_h0_3", 2), tk("c03_tk_h0_3_1", 3), tk("c03_tk_h0_3_9", 3), tk("c03_tk_h0_4_5", 3), tk("c03_tk_h0_3_k0_4", 4, tier="x"), tk("c03_tk_en_5_2", 3, tier="x"), tk("c03_tk_en_h0_3", 3),
+        tk("c03_tk_h0_hybrid_sing", 3), tk("c03_tk_en_de", 2), tk("c03_tk_en_us_de", 3), tk("c03_tk_en_us_3", 3, tier="x"), tk("c03_tk_h0_3", 2), tk("c03_tk_h0_3_1", 3), tk("c03_tk_h0_3_9", 3), tk("c03_tk_h0_4_5", 3), tk("c03_tk_h0_3_k0_4", 4, tier="x"), tk("c03_tk_en_5_2", 3, tier="x"), tk("c03_tk_en_h0_3", 3),
         tk("c03_uk_ca_3", 2, t=False), tk("c03_uk_ca_4_1", 3, t=False), tk("c03_uk_3_ca_4", 3, t=False), tk("c03_uk_nu_3_ca_4", 4, t=False, tier="x", mem_gb=30),
         mf("c03_map_u3_u3", 4, tier="t"), mf("c03_map_u3_x3", 4, tier="t"), mf("c03_map_t2_3_u3", 5, tier="t"), mf("c03_map_u3_t2", 4, tier="t"), mf("c03_map_t2_t2", 4, tier="t"), mf("c03_map_u2_3_t2_3_x3", 8, tier="t"),
         J("c03_x_1", unwind=6, uw=xuw(1), stubs=EXT_STUBS, desc="-x- body, 1 x T9"),
@@ -371,22 +374,22 @@ PROPS["C09"] = P(
 PROPS["C10"] = P(
     jobs=[
         J("c10_attr_history_2", unwind=6, uw=C10_UW, stubs=INSREM + ["<[tinystr::TinyAsciiStr<8>]>::sort_unstable"], desc="attribute set: all histories of 2 symbolic ops (set/remove/has/clear) with T9 arguments vs sorted-set model", weight=2, mem_gb=12, cbmc=NOPTR),
-        J("c10_attr_history_3", tier="t", unwind=6, uw=C10_UW, stubs=INSREM + ["<[tinystr::TinyAsciiStr<8>]>::sort_unstable"], desc="histories of 3 ops", weight=4, mem_gb=24, cbmc=NOPTR),
+        J("c10_attr_history_3", tier="q", unwind=6, uw=C10_UW, stubs=INSREM + ["<[tinystr::TinyAsciiStr<8>]>::sort_unstable"], desc="histories of 3 ops", weight=4, mem_gb=24, cbmc=NOPTR),
         J("c10_attr_inductive", unwind=6, uw=C10_UW, stubs=INSREM + EXT_STUBS, desc="attribute set: ONE symbolic op from an arbitrary pre-state satisfying the representation invariant (0..3 valid normalised attributes, strictly increasing; raw constructor hook) vs the model - an inductive step covering histories of any length over states of <= 3 elements", weight=3, mem_gb=16, cbmc=NOPTR),
         J("c10_tag_inductive", unwind=6, uw=C10_UW, stubs=INSREM + EXT_STUBS, desc="private tags: one symbolic op from an arbitrary sorted multiset of 0..3 valid tags", weight=3, mem_gb=16, cbmc=NOPTR),
         J("c10_tag_history_2", unwind=6, uw=C10_UW, stubs=INSREM + EXT_STUBS, desc="private tags: all histories of 2 symbolic ops (add/remove/has/clear) vs sorted-multiset model", weight=2, mem_gb=12, cbmc=NOPTR),
-        J("c10_tag_history_3", tier="t", unwind=6, uw=C10_UW, stubs=INSREM + EXT_STUBS, desc="histories of 3 ops", weight=4, mem_gb=24, cbmc=NOPTR),
+        J("c10_tag_history_3", tier="q", unwind=6, uw=C10_UW, stubs=INSREM + EXT_STUBS, desc="histories of 3 ops", weight=4, mem_gb=24, cbmc=NOPTR),
         J("c10_kw_history_1", unwind=6, uw=mk({r"kv_|from_iter|extend|filter_map|FilterMap|GenericShunt|try_fold|try_for_each": 6}, C10_UW), stubs=EXT_STUBS, desc="keywords: one symbolic op (set with 0..2 values / remove / get / clear), key and values T9, vs ordered-map model", weight=3, mem_gb=16, cbmc=NOPTR),
-        J("c10_kw_history_2", tier="t", unwind=6, uw=mk({r"kv_|from_iter|extend|filter_map|FilterMap|GenericShunt|try_fold|try_for_each": 6}, C10_UW), stubs=EXT_STUBS, desc="keywords: histories of 2 ops (may hold two keys)", weight=5, mem_gb=40, cbmc=NOPTR, timeout_t=5400),
+        J("c10_kw_history_2", tier="x", unwind=6, uw=mk({r"kv_|from_iter|extend|filter_map|FilterMap|GenericShunt|try_fold|try_for_each": 6}, C10_UW), stubs=EXT_STUBS, desc="keywords: histories of 2 ops (may hold two keys)", weight=5, mem_gb=40, cbmc=NOPTR, timeout_t=5400),
         J("c10_tf_history_1", unwind=6, uw=mk({r"kv_|from_iter|extend|filter_map|FilterMap|GenericShunt|try_fold|try_for_each": 6}, C10_UW), stubs=TLIST_STUBS, desc="tfields: one symbolic op vs ordered-map model", weight=3, mem_gb=16, cbmc=NOPTR),
-        J("c10_tf_history_2", tier="t", unwind=6, uw=mk({r"kv_|from_iter|extend|filter_map|FilterMap|GenericShunt|try_fold|try_for_each": 6}, C10_UW), stubs=TLIST_STUBS, desc="tfields: histories of 2 ops", weight=5, mem_gb=40, cbmc=NOPTR, timeout_t=5400),
+        J("c10_tf_history_2", tier="x", unwind=6, uw=mk({r"kv_|from_iter|extend|filter_map|FilterMap|GenericShunt|try_fold|try_for_each": 6}, C10_UW), stubs=TLIST_STUBS, desc="tfields: histories of 2 ops", weight=5, mem_gb=40, cbmc=NOPTR, timeout_t=5400),
         J("c10_tlang_ops", unwind=6, uw=mk(VAL_UW, C10_UW), desc="set_tlang / replace / clear_tlang with any identifier (<=1 variant)", weight=2),
         J("c10_variants_0", unwind=6, uw=mk(VEC_UW, VAL_UW, C10_UW), stubs=VEC_STUBS, desc="set_variants(&[]) on any langid; has_variant; clear_variants", weight=2),
         J("c10_variants_2", unwind=6, uw=mk(VEC_UW, VAL_UW, C10_UW), stubs=VEC_STUBS, desc="set_variants with 2 symbolic variants (any order/dup); has_variant; clear_variants", weight=3, mem_gb=12),
         J("c10_variants_3", tier="t", unwind=6, uw=mk(VEC_UW, VAL_UW, C10_UW), stubs=VEC_STUBS, desc="3 symbolic variants", weight=4, mem_gb=16),
     ],
-    bounds='per component, compared with a sorted-array set / multiset / ordered-map model after every step: attributes and private tags - all histories of 2 (quick) / 3 (thorough) symbolic operations from the default state AND one symbolic operation from an arbitrary pre-state satisfying the representation invariant (0..3 elements; inductive step); keywords and tfields - one symbolic operation (set with 0..2 values / remove / get / clear; quick), two (thorough); tlang set / replace / clear; set_variants with 0, 2 (quick) or 3 (thorough) symbolic variants, has_variant, clear_variants; every argument a fully symbolic subtag (valid, boundary and invalid arguments alike)',
-    outside='collections of more than 4 elements (checked capacity of the std models); keyword / tfield histories longer than 2; maximize/minimize steps (C07/C08); to_string / re-parse after each step (C04/C05 on the same value shapes); cross-component interleavings on one Locale',
+    bounds='per component, compared with a sorted-array set / multiset / ordered-map model after every step: attributes and private tags - all histories of 2 and 3 symbolic operations from the default state AND one symbolic operation from an arbitrary pre-state satisfying the representation invariant (0..3 elements; inductive step); keywords and tfields - one symbolic operation (set with 0..2 values / remove / get / clear) from the default state; tlang set / replace / clear; set_variants with 0, 2 (quick) or 3 (thorough) symbolic variants, has_variant, clear_variants; every argument a fully symbolic subtag (valid, boundary and invalid arguments alike)',
+    outside='collections of more than 4 elements (checked capacity of the std models); keyword / tfield histories of two or more operations (measured out of reach: 7 M steps, out of memory at 40 GB), hence states holding two keys; maximize/minimize steps (C07/C08); to_string / re-parse after each step (C04/C05 on the same value shapes); cross-component interleavings on one Locale',
 )
 
 PROPS["C19"] = P(
@@ -410,7 +413,7 @@ PROPS["C19"] = P(
 PROPS["C08"] = P(
     jobs=[
         J("c08_zh_full_meaning", unwind=6, uw=LK_UW, desc="minimize on (zh, script, region), every valid script and region both present: result within the input, one of the three shapes, maximizes back to the input", weight=3, mem_gb=16, cbmc=NOPTR),
-        J("c08_zh_full_first", unwind=6, uw=LK_UW, desc="same inputs: the chosen form is the first of {language, language-region, language-script} that maximizes back; None only if none does", weight=3, mem_gb=16, cbmc=NOPTR),
+        J("c08_zh_full_first", unwind=6, uw=LK_UW, desc="same inputs: the chosen form is the first of {language, language-region, language-script} that maximizes back; None only if none does", weight=3, mem_gb=46, cbmc=NOPTR, trace=False),
         J("c08_sr_full_meaning", unwind=6, uw=LK_UW, desc="(sr, script, region) both present: meaning", weight=3, mem_gb=16, cbmc=NOPTR),
         J("c08_sr_full_first", unwind=6, uw=LK_UW, desc="(sr, script, region) both present: first form", weight=3, mem_gb=16, cbmc=NOPTR),
         J("c08_en_full_first", unwind=6, uw=LK_UW, desc="(en, script, region) both present: first form", weight=3, mem_gb=16, cbmc=NOPTR),
